@@ -9,7 +9,7 @@
     [v_corr]: the model predicts all three observations;
     [v_prop]: the three observations are equal (the property itself: same
     decision, same view, same hand-over);
-    guards 1..7 = C13-F1..F7, evaluated on the queries the pipeline asks. *)
+    guards 1..8 = C13-F1..F8, evaluated on the queries the pipeline asks. *)
 From HV Require Export Base.Prelude Base.GoUrl C09.Model C13.Model C13.Proofs.
 Open Scope string_scope.
 
@@ -27,8 +27,8 @@ Record krule := {
 }.
 
 Record case := {
-  k_fixed_F1 : bool;                   (* the driver's sentinel request: the Envoy context hands out one view object (fixes/C13-F1.diff) *)
-  k_fixed_F4 : bool;                   (* second sentinel: the Envoy context carries a decoded Path and a RawPath (fixes/C13-F4.diff) *)
+  k_fx : fixes;                        (* what the driver's sentinel requests found out about the tree under test:
+                                          which of the (candidate) repairs fixes/C13-Fx.diff are in it *)
   k_L : lreq;
   k_rule : option krule;               (* the rule that matches by construction, with the raw captures *)
   k_escpath : string;                  (* net/http: req.URL.EscapedPath() *)
@@ -103,13 +103,13 @@ Definition expected (c : case) (caches : bool) (build : rview) (a : accessors) (
                 end;
      eo_ho := s_handover s; eo_ok := true |}.
 
-Definition expected_dec (c : case) : eobs :=
-  expected c true (build_http (k_L c)) (acc_http (decode_of c) (k_L c)) finalize_decision.
-Definition expected_prx (c : case) : eobs :=
-  expected c true (build_http (k_L c)) (acc_http (decode_of c) (k_L c)) finalize_proxy.
-Definition expected_env (fixed_F1 fixed_F4 : bool) (c : case) : eobs :=
+Definition expected_dec (fx : fixes) (c : case) : eobs :=
+  expected c true (build_http (k_L c)) (acc_http (decode_of c) (k_L c)) (finalize_decision (fx_F3 fx)).
+Definition expected_prx (fx : fixes) (c : case) : eobs :=
+  expected c true (build_http (k_L c)) (acc_http (decode_of c) (k_L c)) (finalize_proxy (fx_F3 fx)).
+Definition expected_env (fx : fixes) (c : case) : eobs :=
   let E := mk_envoy (k_L c) in
-  expected c fixed_F1 (build_envoy fixed_F4 E) (acc_envoy (decode_of c) E) finalize_envoy.
+  expected c (fx_F1 fx) (build_envoy (fx_F4 fx) E) (acc_envoy (decode_of c) fx E) finalize_envoy.
 
 (** the queries the HTTP run asks (conditions, templates) and the probes; the pipeline's adds *)
 Definition asked (c : case) : slashes * list query * list add :=
@@ -132,25 +132,30 @@ Definition matched (c : case) : bool := match k_rule c with Some _ => true | Non
 Definition wf_case (c : case) : bool :=
   String.eqb (k_escpath c) (escpath_of_wire (l_rawpath (k_L c))) && wf_lreqb (k_L c).
 
-Definition check (impl_fixed_F1 impl_fixed_F4 : bool) (c : case) : verdict :=
+Definition check (fx : fixes) (c : case) : verdict :=
   let '(sl, qs, adds) := asked c in
   let L := k_L c in
-  {| v_corr := wf_case c && eobs_eqb (expected_dec c) (k_dec c) && eobs_eqb (expected_prx c) (k_prx c) &&
-               eobs_eqb (expected_env impl_fixed_F1 impl_fixed_F4 c) (k_env c);
+  {| v_corr := wf_case c && eobs_eqb (expected_dec fx c) (k_dec c) && eobs_eqb (expected_prx fx c) (k_prx c) &&
+               eobs_eqb (expected_env fx c) (k_env c);
      v_prop := eobs_eqb (k_dec c) (k_prx c) && eobs_eqb (k_dec c) (k_env c) && eo_ok (k_dec c);
      v_guards := guards [
-       (1%Z, negb impl_fixed_F1 && existsb (g_F1_query (caps_of c) sl impl_fixed_F4) qs);
-       (2%Z, existsb (g_F2_query L) qs);
-       (3%Z, g_F3_adds adds);
-       (4%Z, negb impl_fixed_F4 && (existsb (g_F4_query sl L) qs || (matched c && g_F4_decision sl L)));
+       (1%Z, negb (fx_F1 fx) && existsb (g_F1_query (caps_of c) sl (fx_F4 fx)) qs);
+       (2%Z, negb (fx_F2 fx) && existsb (g_F2_query (fx_F6 fx) L) qs);
+       (3%Z, negb (fx_F3 fx) && g_F3_adds adds);
+       (4%Z, negb (fx_F4 fx) && (existsb (g_F4_query sl L) qs || (matched c && g_F4_decision sl L)));
        (5%Z, existsb (g_F5_query L) qs || g_F5_adds adds);
-       (6%Z, existsb g_F6_query qs);
-       (7%Z, existsb (g_F7_query (decode_of c) L) qs) ] |}.
+       (6%Z, negb (fx_F6 fx) && existsb g_F6_query qs);
+       (7%Z, negb (fx_F7 fx) && existsb (g_F7_query (decode_of c) L) qs);
+       (8%Z, existsb g_F8_query qs) ] |}.
 
-(** the variant of the model is chosen by what the sentinel request of the run observed; whether the
-    pinned variant is acceptable is decided by findings/C13.json (guard 1 is only honoured while
-    C13-F1 is listed as open) *)
-Definition check_auto (c : case) : verdict := check (k_fixed_F1 c) (k_fixed_F4 c) c.
+(** the variant of the model is chosen by what the sentinel requests of the run observed; whether a
+    pinned variant is acceptable is decided by findings/C13.json (a guard is only honoured while its
+    finding is listed as open) *)
+Definition check_auto (c : case) : verdict := check (k_fx c) c.
+
+(** the tree since fix: b2286d8 — C13-F1 is repaired: the repaired variant is expected whatever the
+    sentinel says (a regression is then an ordinary VIOLATION); the candidate repairs by sentinel *)
+Definition check_f1fixed (c : case) : verdict := check (set_F1 true (k_fx c)) c.
 
 (* short constructors for the generated case files *)
 Definition lrq m t h p q hs b pe :=
@@ -161,5 +166,6 @@ Definition rul id sl az steps probes caps :=
   {| kr_id := id; kr_slashes := sl; kr_authz := az; kr_steps := steps; kr_probes := probes; kr_caps := caps |}.
 Definition hov hs cs := {| ho_headers := hs; ho_cookies := cs |}.
 Definition eob s r v h ok := {| eo_status := s; eo_rule := r; eo_view := v; eo_ho := h; eo_ok := ok |}.
-Definition cs fx f4 L r ep ct db de d p e :=
-  {| k_fixed_F1 := fx; k_fixed_F4 := f4; k_L := L; k_rule := r; k_escpath := ep; k_ct := ct; k_dec_body := db; k_dec_empty := de; k_dec := d; k_prx := p; k_env := e |}.
+Definition fxs f1 f2 f3 f4 f6 f7 := {| fx_F1 := f1; fx_F2 := f2; fx_F3 := f3; fx_F4 := f4; fx_F6 := f6; fx_F7 := f7 |}.
+Definition cs fx L r ep ct db de d p e :=
+  {| k_fx := fx; k_L := L; k_rule := r; k_escpath := ep; k_ct := ct; k_dec_body := db; k_dec_empty := de; k_dec := d; k_prx := p; k_env := e |}.
